@@ -40,6 +40,9 @@ type SimNet struct {
 	// handed back (the two in-flight moments), with a canonical key; the scheduler decides when it returns.
 	Park func(key string)
 	Default string // fault applied to every request with no explicit one (e.g. "drop" for a dead network)
+	// FaultFn, if set, decides the fault of a request from its class and occurrence number only, so that the
+	// decision does not depend on the order in which concurrent goroutines reach the network.
+	FaultFn func(class string, occ int) string
 	OnRequest func(r *NetReq)
 }
 
@@ -83,6 +86,9 @@ func (n *SimNet) RoundTrip(req *http.Request) (*http.Response, error) {
 	fault := n.Faults[fmt.Sprintf("net#%d", rec.N)]
 	if fault == "" {
 		fault = n.Faults[fmt.Sprintf("%s#%d", class, o)]
+	}
+	if fault == "" && n.FaultFn != nil {
+		fault = n.FaultFn(class, o)
 	}
 	if fault == "" {
 		fault = n.Default
